@@ -591,6 +591,12 @@ def sockNew (kind : Nat) (e : EP) : ResM (Option SockO × EP) := do
     freeB a
     return (none, e')
   let fd ← openFd
+  -- `pp_socket_set_fd_blocking`: a failing `fcntl (F_SETFL)` is reported, the half-made socket goes through `p_socket_free`
+  if !(← sysOk "fcntl") then
+    let e' ← setErr e
+    closeFd fd
+    freeB a
+    return (none, e')
   return (some ⟨a, some fd, kind, 0, 0⟩, e)
 
 /-- bind to a loopback port (through a temporary `PSocketAddress`) and listen -/
@@ -625,6 +631,12 @@ def sockAccept (s : SockO) (e : EP) : ResM (Char × SockO × Option SockO × EP)
   let fd ← openFd
   let some a ← malloc | do
     let e' ← setErr e
+    closeFd fd
+    return ('F', s', none, e')
+  -- `p_socket_new_from_fd` on the accepted descriptor: `fcntl (F_SETFL)` fails → the structure is released, `p_socket_accept` closes the descriptor
+  if !(← sysOk "fcntl") then
+    let e' ← setErr e
+    freeB a
     closeFd fd
     return ('F', s', none, e')
   return ('S', s', some ⟨a, some fd, 0, 2, 0⟩, e)
@@ -667,6 +679,11 @@ def sockFromFd (e : EP) : ResM (Option SockO × EP) := do
     let e' ← setErr e
     closeFd fd
     return (none, e')
+  if !(← sysOk "fcntl") then
+    let e' ← setErr e
+    freeB a
+    closeFd fd
+    return (none, e')
   return (some ⟨a, some fd, 0, 0, 0⟩, e)
 
 /-! ## named semaphores, shared memory, shared buffers -/
@@ -697,6 +714,13 @@ def semNew (name : Name) (create : Bool) (e : EP) : ResM (Option SemO × EP) := 
     let e' ← setErr e
     freeB a
     return (none, e')
+  -- `pp_semaphore_create_handle`: the first `sem_open` failing for another reason than "exists" is reported;
+  -- `p_semaphore_free` then releases the key and the structure
+  if !(← sysOk "sem_open") then
+    let e' ← setErr e
+    freeB key
+    freeB a
+    return (none, e')
   match ← nameTest name with
   | none => do
     nameCreate name 0
@@ -704,12 +728,12 @@ def semNew (name : Name) (create : Bool) (e : EP) : ResM (Option SemO × EP) := 
     return (some ⟨a, key, name, m, true⟩, e)
   | some _ =>
     if create then do
-      -- the existing name is removed and then opened without O_CREAT: that fails (finding F2, not repaired here)
+      -- access mode CREATE on an existing name (finding F2 repaired): the object is removed and created afresh; this
+      -- handle owns the new one (handles opened before keep their mapping of the old object)
       nameUnlink name
-      let e' ← setErr e
-      freeB key
-      freeB a
-      return (none, e')
+      nameCreate name 0
+      let m ← mmap semMapLen
+      return (some ⟨a, key, name, m, true⟩, e)
     else do
       let m ← mmap semMapLen
       return (some ⟨a, key, name, m, false⟩, e)
